@@ -142,6 +142,7 @@ def sensitivity(argv):
                     name = name + " [known miss, see meta.json]" if not name.endswith("]") else name
                 rows.append((name, prop, f"tests={tests} detected={'yes' if detected else 'NO'} rc={cp.returncode} {time.monotonic() - t0:.0f}s "
                              + cp.stdout.strip().splitlines()[0][:160] if cp.stdout.strip() else f"tests={tests} detected=NO rc={cp.returncode} " + cp.stderr[-300:]))
+                print("progress", *rows[-1], file=sys.stderr, flush=True)
         finally:
             shutil.rmtree(d, ignore_errors=True)
     for r in rows:
@@ -178,6 +179,7 @@ def benign(argv):
                     alarms += 1
                 rows.append((name, prop, f"quiet={'yes' if quiet else 'NO'} rc={cp.returncode} {time.monotonic() - t0:.0f}s "
                              + (cp.stdout.strip().splitlines()[0][:150] if cp.stdout.strip() else cp.stderr[-200:])))
+                print("progress", *rows[-1], file=sys.stderr, flush=True)
         finally:
             shutil.rmtree(d, ignore_errors=True)
     for r in rows:
